@@ -1,9 +1,9 @@
 \* exhaustive: one view, EVERY selector (7 name selectors x 3 units x 27 meter selectors) x every instrument
 CONSTANTS
   TypeSet <- Types2   PatSet <- PatsAll   UnitSelSet <- UnitSelAll   MSelSet <- MSelsAll   ShapeSet <- Shape1
-  INameSet <- INamesAll   IUnitSet <- IUnitsAll   MeterSet <- MetersAll   AttrSet <- Attrs1
+  INameSet <- INamesAll   IUnitSet <- IUnitsAll   MeterSet <- Meters3   AttrSet <- Attrs1
   MaxViews = 1  MaxInst = 1  Hist = FALSE
 INIT Init
 NEXT Next
 VIEW View
-INVARIANTS ExactlyMatching OnlyViewShapes DefaultWhenNoMatch DevNarrow
+INVARIANTS ExactlyMatching OnlyViewShapes MeterIdentityExact DefaultWhenNoMatch DevNarrow
